@@ -256,6 +256,30 @@ def _impl(t):
         ms, i = _strs(t, 2)
         _end(t, i)
         return xs(S.ShareSet.recover_mnemonic(ms, unx(t[1])))
+    if op == "share_reser":
+        _end(t, 2)
+        sh = S.Share.parse(uns(t[1]))
+        return f"{xs(sh.mnemonic())} {xs(sh.mnemonic())}"
+    if op == "ss_history":
+        ms, i = _strs(t, 1)
+        k = int(t[i])
+        i += 1
+        obj = S.ShareSet([S.Share.parse(m) for m in ms])     # a raise here: the whole line is REJECT
+        out = []
+        for _ in range(k):
+            if t[i] == "R":
+                try:
+                    out.append(xb(obj.recover(unx(t[i + 1]))))
+                except Exception:
+                    out.append("RAISED")
+                i += 2
+            elif t[i] == "S":
+                new, i = _strs(t, i + 1)
+                obj.shares = [S.Share.parse(m) for m in new]   # a raise here: REJECT
+            else:
+                raise UnknownOp(t[i])
+        _end(t, i)
+        return " ".join([str(len(out))] + out)
     raise UnknownOp(op)
 
 
@@ -528,6 +552,90 @@ def p_official_vector(c):
 
 
 PREDICATES["official_vector_recovers"] = p_official_vector
+
+
+def p_shareset_history(c):
+    """ONE ShareSet object: recover with the right passphrase, a wrong one, the right one again (the first and the last
+    answer are the secret, the object is not changed by a failed or foreign-passphrase call); shares reordered, one
+    removed (still >= k: same secret; below k: raises), put back (secret again); Share objects re-serialised twice
+    give the mnemonic they were parsed from both times"""
+    import buidl.shamir as S
+    import buidl.mnemonic as M
+    secret = M.mnemonic_to_bytes(c["mn"])
+    pw, k = unx(c["pass"]), c["k"]
+    objs = [S.Share.parse(m) for m in c["shares"]]
+    bad = []
+    for m, o in zip(c["shares"], objs):
+        if o.mnemonic() != m or o.mnemonic() != m:
+            bad.append("re-serialisation differs")
+    obj = S.ShareSet(list(objs))
+
+    def rec_(p):
+        try:
+            return obj.recover(p)
+        except Exception:
+            return REJECT
+    seq = [rec_(pw), rec_(pw + b"x"), rec_(pw), rec_(pw)]
+    if seq[0] != secret or seq[2] != secret or seq[3] != secret:
+        bad.append("repeated recover differs")
+    obj.shares = list(reversed(objs))
+    if rec_(pw) != secret:
+        bad.append("reordered")
+    if len(objs) > k:
+        obj.shares = objs[1:]
+        if rec_(pw) != secret:
+            bad.append("one removed, still >= k")
+    if k >= 2:
+        obj.shares = objs[:k - 1]
+        if rec_(pw) != REJECT:
+            bad.append("below k accepted")
+    obj.shares = list(objs)
+    if rec_(pw) != secret:
+        bad.append("put back")
+    for m, o in zip(c["shares"], objs):
+        if o.mnemonic() != m:
+            bad.append("share object changed by recover")
+    return not bad, bad, []
+
+
+def p_process_state(c):
+    """the module-level state survives use: ShareSet.exp / log2 and the SLIP39 / BIP39 word tables are identical before
+    and after a series of generate_shares / recover_mnemonic calls (seeded randomness), after calling _load() again,
+    and the same recover_mnemonic query answers the same before and after"""
+    import buidl.shamir as S
+    import buidl.mnemonic as M
+    snap = lambda: (list(S.ShareSet.exp), list(S.ShareSet.log2), list(S.SLIP39.words), dict(S.SLIP39.lookup),
+                    list(M.BIP39.words), dict(M.BIP39.lookup))
+    before = snap()
+    rng = random.Random(c["seed"])
+    bad = []
+    probe = None
+    for rnd in range(c["rounds"]):
+        ent = bytes(rng.getrandbits(8) for _ in range(rng.choice([16, 32])))
+        mn = M.bytes_to_mnemonic(ent, 8 * len(ent))
+        n = rng.randint(1, 6)
+        k = rng.randint(1, n)
+        pw = rng.choice([b"", b"TREZOR", b"x y"])
+        with patched_randbits(_RecBits(random.Random(rng.getrandbits(32)))):
+            shares = S.ShareSet.generate_shares(mn, k, n, pw, 0)
+        sub = rng.sample(shares, min(len(shares), k))
+        got = S.ShareSet.recover_mnemonic(sub, pw)
+        if got != mn:
+            bad.append(f"round {rnd}: wrong mnemonic")
+        if probe is None:
+            probe = (sub, pw, mn)
+        if rnd == c["rounds"] // 2:
+            S.ShareSet._load()
+        if snap() != before:
+            bad.append(f"round {rnd}: module tables changed")
+            break
+    if probe and S.ShareSet.recover_mnemonic(probe[0], probe[1]) != probe[2]:
+        bad.append("first query answers differently at the end")
+    return not bad, bad, []
+
+
+PREDICATES["shareset_history"] = p_shareset_history
+PREDICATES["process_state"] = p_process_state
 
 
 # --------------------------------------------------------------------------------- generation
@@ -1163,6 +1271,49 @@ def run(ctx):
             "e": rng.choice([0, 0, 0, 1, 1, 2]),
             "pass": xb(PASSPHRASES[j] if j < len(PASSPHRASES) else pw_choice())}))
 
+    # ---------------------------------------------------------------- 8. histories on ONE object / one process
+    hsets = [st for st in sets if st["e"] == 0][: ctx.n(10)]
+    for st in hsets:
+        sh, k, pw = st["shares"], st["k"], st["pw"]
+        ops = []
+
+        def R(p):
+            cost[0] += 1
+            ops.extend(["R", xb(p)])
+
+        def Sset(l):
+            ops.extend(["S", fmt_strs(l)])
+        R(pw); R(pw + b"!"); R(pw); R(b"")
+        Sset(list(reversed(sh))); R(pw)
+        if len(sh) > k:
+            Sset(sh[1:]); R(pw)
+        if k >= 2:
+            Sset(sh[:k - 1]); R(pw)
+        Sset([]); R(pw)
+        Sset(sh); R(pw); R(pw)
+        other = [o for o in sets if o is not st and o["nwords"] == st["nwords"]]
+        if other:
+            # a foreign share smuggled in after construction (no re-validation): the object keeps ITS id / exponent /
+            # threshold; whatever happens, model and code must agree
+            Sset(sh[:max(1, k - 1)] + [other[0]["shares"][-1]]); R(pw)
+            Sset(sh); R(pw)
+        nops = sum(1 for o in ops if o in ("R", "S"))
+        start = rng.sample(sh, max(1, min(len(sh), k)))
+        add("ss_history", ["ss_history", fmt_strs(start), nops] + ops)
+        add("ss_history", ["ss_history", fmt_strs(sh), nops] + ops)
+        preds.append(("shareset_history", {"mn": M.bytes_to_mnemonic(M.mnemonic_to_bytes(st["mn"]), 8 * len(M.mnemonic_to_bytes(st["mn"]))),
+                                           "k": k, "pass": xb(pw), "shares": sh}))
+    add("ss_history", ["ss_history", fmt_strs([]), 1, "R", xb(b"")])
+    if sets:
+        add("ss_history", ["ss_history", fmt_strs([sets[0]["shares"][0], "not a share"]), 1, "R", xb(b"")])
+        add("ss_history", ["ss_history", fmt_strs(sets[0]["shares"][:1]), 2, "S", fmt_strs(["junk words"]), "R", xb(b"")])
+    for m in rng.sample(all_shares, min(len(all_shares), ctx.n(40))):
+        add("share_reser", ["share_reser", xs(m)])
+    add("share_reser", ["share_reser", xs("academic academic")])
+    for j in range(ctx.n(2)):
+        preds.append(("process_state", {"seed": rng.getrandbits(32), "rounds": ctx.n(6, 12)}))
+    add("tables", ["tables"])     # asked again at the end of the request list
+
     rec.count("cost:feistel passes requested from the driver (e=0 equivalents)", cost[0])
 
     # ---------------------------------------------------------------- run both sides
@@ -1188,6 +1339,17 @@ def run(ctx):
             rec.sample(kind, {"request": line, "answer": model})
         if impl == REJECT:
             rec.count(kind + ":reject")
+    # every query a second time, in the opposite order, in this process (module tables and word lists are reused); the
+    # PBKDF2-bound driver lines are not repeated on the model side (the driver is a pure function of the line)
+    seen2, second = set(), []
+    for (kind, line), model in reversed(list(zip(lines, answers))):
+        if line not in seen2:
+            seen2.add(line)
+            second.append((kind, line, model))
+    again = pmap(impl_line, [l for _, l, _ in second], workers=ctx.workers) if heavy else [impl_line(l) for _, l, _ in second]
+    for (kind, line, model), impl2 in zip(second, again):
+        rec.compare(kind + ":again", {"line": line, "second_time": True}, impl2, model, determined=True,
+                    key="again " + line[:290])
     results = pmap(_eval_item, preds, workers=ctx.workers) if heavy else [_eval_item(p) for p in preds]
     for (kind, case), (ok, got, want) in zip(preds, results):
         rec.cov_pred(kind, case)
